@@ -150,6 +150,56 @@ Theorem C13_code_incomplete_rejected : forall a,
 Proof. exact code_from_missing. Qed.
 Print Assumptions C13_code_incomplete_rejected.
 
+(* CodedConcept.from_dataset ALONE (before any accessor is read) accepts
+   EXACTLY: one of the three code value attributes, Code Meaning and Coding
+   Scheme Designator - the same two whichever attribute carries the code
+   value; everything else is an AttributeError *)
+Theorem C13_code_from_dataset_accepts_iff : forall a,
+  (code_accept (DSet a) = Ok tt <->
+   (n_carriers a = 1 /\ has "CodeMeaning" a = true /\ has "CodingSchemeDesignator" a = true)) /\
+  (code_accept (DSet a) = Err "AttributeError" <->
+   ~ (n_carriers a = 1 /\ has "CodeMeaning" a = true /\ has "CodingSchemeDesignator" a = true)).
+Proof. exact code_accept_spec. Qed.
+Print Assumptions C13_code_from_dataset_accepts_iff.
+
+(* no hypothesis on the carrier: CodeValue, LongCodeValue or URNCodeValue *)
+Theorem C13_code_designator_required_any_carrier : forall a,
+  (has "CodingSchemeDesignator" a = false \/ has "CodeMeaning" a = false) ->
+  code_accept (DSet a) = Err "AttributeError" /\ code_from (DSet a) = Err "AttributeError".
+Proof.
+  intros a H.
+  assert (Ha : code_accept (DSet a) = Err EAttr)
+    by (destruct H; [apply code_accept_needs_designator|apply code_accept_needs_meaning]; assumption).
+  split; [exact Ha|]. apply code_accept_err_wins. exact Ha.
+Qed.
+Print Assumptions C13_code_designator_required_any_carrier.
+
+(* the accessors succeed only on what from_dataset accepted; a refusal by
+   from_dataset is the error of from_dataset + accessors; what the constructor
+   writes is accepted *)
+Theorem C13_code_accessors_after_from_dataset : forall d,
+  (forall c, code_from d = Ok c -> code_accept d = Ok tt) /\
+  (forall e, code_accept d = Err e -> code_from d = Err e) /\
+  (forall c, d = code_ds c -> code_accept d = Ok tt).
+Proof.
+  intros d. split; [apply code_from_accept|]. split; [apply code_accept_err_wins|].
+  intros c ->. apply code_ds_accepted.
+Qed.
+Print Assumptions C13_code_accessors_after_from_dataset.
+
+Example C13_code_designator_each_carrier :
+  forallb (fun k =>
+    match code_accept (DSet [(k, DStr "CUSTOM-FINDING-0001-LEFT"); ("CodeMeaning", DStr "m")]),
+          code_accept (DSet [(k, DStr "CUSTOM-FINDING-0001-LEFT"); ("CodeMeaning", DStr "m");
+                             ("CodingSchemeDesignator", DStr "99X")]),
+          code_accept (DSet [(k, DStr "CUSTOM-FINDING-0001-LEFT"); ("CodingSchemeDesignator", DStr "99X")])
+    with
+    | Err e1, Ok _, Err e2 => String.eqb e1 "AttributeError" && String.eqb e2 "AttributeError"
+    | _, _, _ => false
+    end) carriers = true.
+Proof. vm_compute. reflexivity. Qed.
+Print Assumptions C13_code_designator_each_carrier.
+
 Theorem C13_flatten_reshape : forall k pts, (0 < k)%nat -> rows_nat k pts ->
   reshape k (concat pts) = Ok pts.
 Proof. exact reshape_concat. Qed.
@@ -325,6 +375,58 @@ Theorem C13_from_dataset_accepts_iff : forall c a,
    value_codes c a = Ok tt).
 Proof. exact from_dataset_accepts_iff. Qed.
 Print Assumptions C13_from_dataset_accepts_iff.
+
+(* "complete coded concept" spelled out (complete_concept s: s is a sequence
+   whose first item has exactly one code value attribute, Code Meaning and
+   Coding Scheme Designator): in an item X.from_dataset accepted, the name, the
+   CODE value, the NUM unit and the NUM qualifier are all complete - whichever
+   of CodeValue / LongCodeValue / URNCodeValue carries the code *)
+Theorem C13_item_concepts_complete : forall c a, accept (Some c) (DSet a) = Ok tt ->
+  (forall s, lookup "ConceptNameCodeSequence" a = Some s ->
+   exists a' rest, s = DSeq (DSet a' :: rest) /\
+     n_carriers a' = 1 /\ has "CodeMeaning" a' = true /\ has "CodingSchemeDesignator" a' = true) /\
+  (c = CodeContentItem ->
+   exists s, lookup "ConceptCodeSequence" a = Some s /\ complete_concept s) /\
+  (c = NumContentItem ->
+   exists ms it u, lookup "MeasuredValueSequence" a = Some ms /\ first_item ms = Ok it /\
+     lookup "MeasurementUnitsCodeSequence" it = Some u /\ complete_concept u /\
+     (forall q, lookup "NumericValueQualifierCodeSequence" a = Some q -> complete_concept q)).
+Proof. exact item_concepts_complete. Qed.
+Print Assumptions C13_item_concepts_complete.
+
+Theorem C13_item_incomplete_name_rejected : forall c a s,
+  lookup "ConceptNameCodeSequence" a = Some s -> ~ complete_concept s ->
+  accept (Some c) (DSet a) <> Ok tt.
+Proof. exact item_incomplete_name_rejected. Qed.
+Print Assumptions C13_item_incomplete_name_rejected.
+
+(* a TEXT item named by a Long Code Value: refused without the designator of the
+   name (AttributeError, by its own class and by from_sequence), accepted with it;
+   the same for the value of a CODE item and the unit of a NUM item *)
+Definition ex_long (with_scheme : bool) : dval :=
+  DSeq [DSet ([("LongCodeValue", DStr "CUSTOM-FINDING-0001-LEFT"); ("CodeMeaning", DStr "m")]
+              ++ if with_scheme then [("CodingSchemeDesignator", DStr "99X")] else [])].
+Definition ex_item (vt : string) (name : dval) (rest : attrs) : dval :=
+  DSet ([("ValueType", DStr vt); ("ConceptNameCodeSequence", name);
+         ("RelationshipType", DStr "CONTAINS")] ++ rest).
+Definition ex_cases (b : bool) : list (ctag * dval) :=
+  [(TextContentItem, ex_item "TEXT" (ex_long b) [("TextValue", DStr "t")]);
+   (CodeContentItem, ex_item "CODE" (ex_long true) [("ConceptCodeSequence", ex_long b)]);
+   (NumContentItem, ex_item "NUM" (ex_long true)
+      [("MeasuredValueSequence",
+        DSeq [DSet [("NumericValue", DNums [1%Q]); ("MeasurementUnitsCodeSequence", ex_long b)]])]);
+   (NumContentItem, ex_item "NUM" (ex_long true)
+      [("MeasuredValueSequence",
+        DSeq [DSet [("NumericValue", DNums [1%Q]); ("MeasurementUnitsCodeSequence", ex_long true)]]);
+       ("NumericValueQualifierCodeSequence", ex_long b)])].
+Example C13_long_code_without_designator_refused :
+  forallb (fun cd => match accept (Some (fst cd)) (snd cd), accept_sequence [snd cd] with
+                     | Err e1, Err e2 => String.eqb e1 "AttributeError" && String.eqb e2 "AttributeError"
+                     | _, _ => false end) (ex_cases false) = true /\
+  forallb (fun cd => match accept (Some (fst cd)) (snd cd), accept_sequence [snd cd] with
+                     | Ok _, Ok _ => true | _, _ => false end) (ex_cases true) = true.
+Proof. vm_compute. split; reflexivity. Qed.
+Print Assumptions C13_long_code_without_designator_refused.
 
 (* ---- the three kinds of content sequence (is_root, is_sr) ---- *)
 Theorem C13_sequence_kind_rule : forall m r c,
